@@ -8,6 +8,7 @@ pub mod c12;
 pub mod c13;
 pub mod c14;
 pub mod c15;
+pub mod c16;
 pub mod c17;
 pub mod c18;
 pub mod c19;
@@ -22,6 +23,7 @@ pub fn run(prop: &str, opts: &Opts) -> Vec<Report> {
         "C13" => c13::run(opts),
         "C14" => c14::run(opts),
         "C15" => c15::run(opts),
+        "C16" => c16::run(opts),
         "C17" => c17::run(opts),
         "C18" => c18::run(opts),
         "C19" => c19::run(opts),
@@ -37,6 +39,7 @@ pub fn replay(prop: &str, case: &Value) -> ReplayResult {
         "C13" => c13::replay(case),
         "C14" => c14::replay(case),
         "C15" => c15::replay(case),
+        "C16" => c16::replay(case),
         "C17" => c17::replay(case),
         "C18" => c18::replay(case),
         "C19" => c19::replay(case),
